@@ -486,7 +486,9 @@ def r5_quoting(ctx):
     ctx.floor('C13.R5', 'S3 build_request', len(br))
     for e in br:
         url = e.args[1] if len(e.args) > 1 else None
-        q, raw = _quoted(url, 'canonical_uri') if url is not None else (False, True)
+        pparams = [a.arg for a in pr.node.args.posonlyargs + pr.node.args.args]
+        path_param = pparams[2] if len(pparams) > 2 else 'canonical_uri'  # (self, method, <path>, ...)
+        q, raw = _quoted(url, path_param) if url is not None else (False, True)
         ctx.check(q and not raw, 'C13.R5', f'{func_label(pr)}|s3-url-path-quoted', e.loc, 'S3: the request URL path is quote(canonical_uri)', 'S3: the object path enters the URL unquoted')
     for mname in ('exists', 'upload', 'download', 'download_stream', 'delete', '_put_object', '_put_object_stream'):
         f = s3.methods.get(mname)
